@@ -249,3 +249,76 @@ def ef4b(facts, rep):
         rep.missing(rule, key, 'only %d iterator calls found in the serialiser (confirmed floor 3: flat_map, map, join)' % n)
     else:
         rep.ok(rule, key, '%s:%s' % (w.file, w.line), '%d iterator / collection calls, none drops elements' % n)
+
+
+def po11(facts, rep):
+    """C19: the q-gram encoders mask / shift by q * bits, which may equal the word size exactly (asserted `<=`).  A
+    wrapping / overflowing / unchecked shift silently reduces the amount modulo the width: with q * bits == usize::BITS the
+    mask 1.wrapping_shl(..) - 1 is 0 and every code collapses to 0 (seed C19-11).  Every such shift in the encoders must
+    have an amount proved < width by the interval engine; checked_shl (today's code) carries no obligation."""
+    from . import eng_po
+    from .po_known import KNOWN
+    rule = 'PO-11'
+    rep.rule(rule, 'RankTransform::{qgrams, rev_qgrams} and the q-gram iterators: every wrapping_/overflowing_/unchecked_ shift has a '
+                   'shift amount proved smaller than the word width (interval analysis); count zero on the current tree, the '
+                   'self-test mutant c19-qgram-mask-wrapping-shl is the positive control')
+    bodies = []
+    for nm in ('qgrams', 'rev_qgrams'):
+        b = facts.method('alphabets::RankTransform', nm)
+        if b is None:
+            rep.missing(rule, 'alphabets::RankTransform::' + nm, 'not found')
+        else:
+            bodies.append(b)
+    for b in facts.find(r'^<alphabets::(QGrams|RevQGrams)<.*> as std::iter::Iterator>::next$'):
+        bodies.append(b)
+    n = 0
+    for b, nb, ia, obs in eng_po.scan(facts, bodies, KNOWN):
+        rep.analysed_body(b)
+        for o in obs:
+            if o['kind'] != 'shift-amount':
+                continue
+            n += 1
+            key = 'alphabets::%s|shift-amount|%s' % (b.name, o['ops'])
+            if o['discharged']:
+                rep.ok(rule, key, o['where'], 'shift amount proved < width')
+            else:
+                rep.bad(rule, key, o['where'], 'undischarged shift-amount obligation: %s (q * bits may equal the word size)' % o['detail'])
+    if len(bodies) < 2:
+        return
+    rep.ok(rule, 'alphabets::RankTransform|modular-shifts', '%s:%s' % (bodies[0].file, bodies[0].line),
+           '%d bodies analysed, %d modular shift(s), all discharged' % (len(bodies), n))
+
+
+def sz1(facts, rep):
+    """C16: Aligner::consensus searches its per-node score table for the maximum and starts the walk at that slot.  Every slot
+    is a candidate, so the table must have exactly one slot per node: with a spare slot, a graph without edges (all scores 0)
+    makes the last-maximum search pick the spare slot and raw_nodes()[node_count] panics (defect F16, repaired in /repo)."""
+    from .poly import poly, pstr
+    rule = 'SZ-1'
+    rep.rule(rule, 'poa::Aligner::consensus: every table allocated with vec![_; n] and searched / indexed by node index has '
+                   'n == graph.node_count() exactly (polynomial equality), so that the maximum search can only return a node')
+    key = 'poa::Aligner::consensus|score-table-has-one-slot-per-node'
+    b = facts.one(r'alignment::poa::Aligner::<F>::consensus$')
+    if b is None:
+        rep.missing(rule, key, 'consensus not found')
+        return
+    rep.analysed_body(b)
+    n = 0
+    bad = None
+    for bb, t in b.calls():
+        ci = call_info(t)
+        if not ci or not ci['fn'].endswith('vec::from_elem') or len(t['args']) < 2:
+            continue
+        n += 1
+        p = poly(b.expr_operand(t['args'][1], inline_user=True))
+        atoms = [m for m in p if m != ()]
+        exact = p.get((), 0) == 0 and len(atoms) == 1 and len(atoms[0]) == 1 and p[atoms[0]] == 1 and 'node_count' in atoms[0][0]
+        if not exact:
+            bad = (bb, pstr(p))
+    if bad:
+        rep.bad(rule, key, b.loc(bad[0]), 'table allocated with %s slots, expected exactly node_count(): a slot that is not a node can '
+                                          'win the maximum search (graph without edges) and is then used as a node index' % bad[1])
+    elif n == 0:
+        rep.ok(rule, key, '%s:%s' % (b.file, b.line), 'no vec![_; n] table in consensus')
+    else:
+        rep.ok(rule, key, '%s:%s' % (b.file, b.line), '%d table(s) sized node_count()' % n)
